@@ -482,7 +482,13 @@ def _v_louvain_complete_graph_shortcut(tree):
     g.body[k[0]:k[0]] = M.stmts("if total_weight == n * (n - 1) / 2:\n    return Result([set(node_list)], 0.0, 0, n)")
 
 
+def _v_pagerank_max_diff_unbound(tree):
+    g = M.find_func(tree, "pagerank")
+    M.replace_stmt(g, lambda st: isinstance(st, ast.Assign) and M.src_is(st.targets[0], "max_diff") and st in g.body, [])
+
+
 VARIANTS = [
+    M.Variant("pagerank binds max_diff only inside the sweep loop: max_iter=0 raises where the Rust kernel answers MAX_ITER (original defect, ledger row 63)", PR, _v_pagerank_max_diff_unbound, "C15-G1"),
     M.Variant("pagerank_edges no longer forwards tol (seed C15-R)", PR, _v_pagerank_edges_drops_tol, "C15-G16"),
     M.Variant("louvain answers a complete graph with one community and modularity 0.0 (seed C15-Q)", CM, _v_louvain_complete_graph_shortcut, "C15-O3"),
     M.Variant("shared adjacency helper skips neighbours whose own list was already read (seed C15-O)", AR, _v_adjacency_skips_scanned_neighbours, "C15-O1"),
